@@ -2,6 +2,8 @@ package main
 
 import (
 	"fmt"
+	"go/constant"
+	"go/token"
 	"go/types"
 	"sort"
 	"strings"
@@ -10,11 +12,12 @@ import (
 )
 
 // symRange: iteration over a symbolic (SMT-array) map, handled with the map-range loop rule:
-//   entry:  Inv(it0, it0, {}) is an obligation;
-//   header: the map, the ghost set `visited` and everything the body assigns are havocked, Inv is assumed;
-//   body:   entered with an arbitrary key that is present and not yet visited; at the back edge
-//           Inv(it, it0, visited+{k}) is an obligation and the path ends;
-//   exit:   every present key has been visited.
+//
+//	entry:  Inv(it0, it0, {}) is an obligation;
+//	header: the map, the ghost set `visited` and everything the body assigns are havocked, Inv is assumed;
+//	body:   entered with an arbitrary key that is present and not yet visited; at the back edge
+//	        Inv(it, it0, visited+{k}) is an obligation and the path ends;
+//	exit:   every present key has been visited.
 type symRange struct {
 	cell    int
 	m0      Term
@@ -384,7 +387,15 @@ func (e *Engine) havocLoopTargets(st *State, fr *Frame, header *ssa.BasicBlock) 
 				choices = append(choices, ptrChoice{set: func(s *State, v Value) { s.wregs(fr)[ph] = v },
 					options: e.ptrOptions(st, fr, phi.Type(), "loopphi")})
 			} else {
-				st.wregs(fr)[phi] = e.havoc(st, phi.Type(), "loopphi")
+				hv := e.havoc(st, phi.Type(), "loopphi")
+				st.wregs(fr)[phi] = hv
+				// a counter (initial constant c, only ever advanced by a positive constant, as in the index of a
+				// range loop) is never below c: machine integers are treated as mathematical ones (assumption A-INT)
+				if c, ok := counterStart(phi); ok {
+					if sv, ok := hv.(VSym); ok && sv.T.Sort == SInt {
+						st.assume(Ge(sv.T, IntLit(c)))
+					}
+				}
 			}
 		}
 	}
@@ -553,6 +564,9 @@ func (e *Engine) callByContract(st *State, fn *ssa.Function, ct *Contract, args 
 	}
 	for ri, rq := range ct.Requires {
 		g := envR.term(rq.Node)
+		if debugReq {
+			fmt.Printf("REQ %s at %s: %s  args0=%T %v\n", ct.Short, pos, g.S, args[0], args[0])
+		}
 		if envR.err != nil {
 			st.incomplete = "callee precondition does not evaluate at " + pos + ": " + envR.err.Error()
 			e.endPath(st)
@@ -603,6 +617,9 @@ func (e *Engine) callByContract(st *State, fn *ssa.Function, ct *Contract, args 
 									n.NilT = e.fresh(st, "out."+pn+".isnil", SBool)
 									st.heap[mv.Cell] = n
 								}
+							}
+							if mv, ok := hv.(VMap); ok {
+								argNil[fmt.Sprintf("outmap%d", i)] = e.mapIdent(st, mv.Cell)
 							}
 							e.store(st, pv, hv)
 						}
@@ -1126,4 +1143,32 @@ func (e *Engine) loopTouchesDB(header *ssa.BasicBlock) bool {
 		}
 	}
 	return false
+}
+
+// counterStart recognises phi = [c, phi + k] with integer constants c and k > 0 and returns c.
+func counterStart(phi *ssa.Phi) (int64, bool) {
+	if len(phi.Edges) != 2 {
+		return 0, false
+	}
+	var start int64
+	haveStart, haveStep := false, false
+	for _, ed := range phi.Edges {
+		switch x := ed.(type) {
+		case *ssa.Const:
+			if x.Value != nil && x.Value.Kind() == constant.Int {
+				if v, ok := constant.Int64Val(x.Value); ok {
+					start, haveStart = v, true
+				}
+			}
+		case *ssa.BinOp:
+			if x.Op == token.ADD && x.X == ssa.Value(phi) {
+				if k, ok := x.Y.(*ssa.Const); ok && k.Value != nil && k.Value.Kind() == constant.Int {
+					if v, ok := constant.Int64Val(k.Value); ok && v > 0 {
+						haveStep = true
+					}
+				}
+			}
+		}
+	}
+	return start, haveStart && haveStep
 }
